@@ -60,6 +60,12 @@ def draw_scenario(seed, i, kind=None, real_writers=False):
          "name_seed": rng.getrandbits(32), "content_seed": rng.getrandbits(32),
          # configuration: is the output directory a file system of its own (renames from TMPDIR fail with EXDEV)?
          "exdev": rng.random() < 0.5}
+    if kind in ("status", "create_zip", "make_zip", "zipbuilder"):
+        # a second producer at work in the same directory, on a file of its own next to ours (another
+        # writer's status file, another archive).  Two producers of the SAME file are not explored: the
+        # property is quantified over each producer's own operation sequence, and the unchanged tree's
+        # status writer (fixed name filename + '.tmp') is not safe against that either.
+        p["pair"] = rng.choice([None, None, "other"])
     if kind == "status":
         n = rng.randint(1, 5)
         ups = []
@@ -141,6 +147,14 @@ class Scenario:
         self.prev = {}  # label -> bytes or None
         self.new = {}  # label -> expected content descriptor
         getattr(self, "prepare_" + p["kind"])()
+        if p.get("pair") == "other":
+            if p["kind"] == "status":
+                self.published["status_sib"] = os.path.join(self.out, "status.rl")  # same stem, other suffix
+                self.prev["status_sib"] = None
+            else:
+                self.published["zip_sib"] = os.path.join(self.out, "collection.other.zip")
+                self.prev["zip_sib"] = None
+                self.new["zip_sib"] = self.contents
 
     # -- stage ------------------------------------------------------------------
     def reset_out(self):
@@ -162,6 +176,20 @@ class Scenario:
                 f.write(data)
             contents[name] = data
         return contents
+
+    # -- the second producer (fault kind "sibling") -----------------------------------
+    SIBLING_STATUS = {"status": "sibling at work", "progress": 42, "article": "B" * 300}
+
+    def sibling(self):
+        same = self.p.get("pair") == "same"
+        if self.p["kind"] == "status":
+            from mwlib.utils.status import Status
+            st = Status(filename=self.published["status" if same else "status_sib"])
+            st.stdout = None
+            st(**self.SIBLING_STATUS)
+        else:
+            from mwlib.apps.buildzip import ZipCreator
+            ZipCreator.create_zip(os.path.join(self.src, "tree"), self.published["zip" if same else "zip_sib"])
 
     # -- status --------------------------------------------------------------------
     def prepare_status(self):
@@ -635,6 +663,7 @@ class Scenario:
     def produce(self, tracer):
         import logging
         logging.disable(logging.CRITICAL)
+        tracer.sibling = self.sibling
         return getattr(self, "produce_" + self.p["kind"])(tracer)
 
     def stage(self):
@@ -650,12 +679,12 @@ class Scenario:
         data = open(path, "rb").read()
         if self.prev.get(label) is not None and data == self.prev[label]:
             return ("prev",)
-        if label == "status":
+        if label.startswith("status"):
             try:
                 return ("json", json.loads(data.decode("utf-8")))
             except ValueError as e:
                 return ("garbage", f"status file does not parse as JSON ({e}); {len(data)} bytes: {data[:60]!r}")
-        if label == "zip":
+        if label.startswith("zip"):
             try:
                 with zipfile.ZipFile(path) as zf:
                     bad = zf.testzip()
@@ -690,7 +719,7 @@ class Scenario:
             if label == "status" and self.p["kind"] == "status":
                 versions = [json.loads(v) for v in ref["info"]["versions"]]
                 i = len(versions) - 1
-                if not completed:
+                if not completed and fault.kind != "sibling":  # (with a sibling at work this producer runs to its end)
                     i = 0
                     for at, lab in ref["marks"]:
                         if at <= fault.at:
@@ -699,6 +728,8 @@ class Scenario:
                 # version" (a producer may throttle or skip dumps); garbage or a status that was
                 # never written is not
                 if st[0] == "json":
+                    if fault.kind == "sibling" and st[1] == self.SIBLING_STATUS:
+                        continue  # the other producer of the same file was the last to publish
                     if st[1] not in versions[: i + 1]:
                         return ("A-stale", f"{where}: status file holds a status that was never written up to update {i}")
                 elif st[0] == "absent" and self.prev.get(label) is not None:
@@ -709,14 +740,16 @@ class Scenario:
             if st[0] == "absent" and self.prev.get(label) is not None:
                 return ("A-vanished", f"{where}: the previous version is gone and no new one is there")
             if completed and ref is not None and not ref["info"].get("raised") and st[0] != "new" and label != "status" \
-                    and label not in self.may_fail:
+                    and label not in self.may_fail and not label.endswith("_sib"):
                 return ("A-final", f"{where}: producer finished but the published file is {st[0]}")
         return None
 
 
-def applicable_kinds(op):
+def applicable_kinds(op, p=None):
     name = op[0]
     kinds = ["crash", "enospc"]
+    if p is not None and p.get("pair"):
+        kinds.append("sibling")
     if name in ("write", "os.write", "sendfile", "copy_file_range"):
         kinds.append("eio_short")
     if name in ("write", "os.write"):
@@ -769,7 +802,7 @@ def explore_scenario(p, root, stats, only=None):
     if bad:
         return {"fault": ["none", -1], "violation": bad, "ref": ref}
     for k in range(ref["n"]):
-        for kind in applicable_kinds(ref["trace"][k]):
+        for kind in applicable_kinds(ref["trace"][k], p):
             if only and [kind, k] != only:
                 continue
             f = Fault(kind, k)
